@@ -383,6 +383,14 @@ class Check:
             self.violations.append((desc, self.violations[-1][1]))
         return "violation"
 
+    def selftest_failed(self, msg):
+        """the binding self-test expects a clean base trace: when the run itself has violations the counts of the
+        corrupted copy are not comparable, and the violations are what gets reported"""
+        self.cov.setdefault("selftest", {})["note"] = msg
+        if self.violations:
+            return
+        raise ToolError("self-test: " + msg)
+
     def finish(self):
         wall = time.time() - self.t0
         os.makedirs(EVID, exist_ok=True)
